@@ -4,6 +4,8 @@
     ensures
         // C36: the metrics handed out for an address are the registry's (single) entry for that address
         has_entry(&self.addrs, addr, res),
+//@ entry
+        broadcast use axiom_ip_key_injective;
 //@ closure 1
 |x: &(IpAddr, Arc<RtrMetricsData>)| -> (r: Ordering) ensures r == ip_cmp(x.0, addr)
 //@ closure 2
